@@ -79,6 +79,7 @@ type tableEngine struct {
 	gameBackend               GameBackend
 	rg                        *syncsaga.ReadyGroup
 	rgMu                      sync.Mutex // guards rg: replaced on every arming, signalled by calls that take no engine lock
+	playersMu                 sync.Mutex // guards the player-list slice header: replaced under the engine lock, read by calls that take no engine lock
 	tbForOpenGame             *timebank.TimeBank
 	sm                        seat_manager.SeatManager
 	ogm                       open_game_manager.OpenGameManager
@@ -376,14 +377,10 @@ PlayerJoin 玩家入桌
   - 適用時機: 玩家已經確認座位後入桌
 */
 func (te *tableEngine) PlayerJoin(playerID string) error {
-	playerIdx := te.table.FindPlayerIdx(playerID)
+	// this call takes no engine lock: it works on a snapshot of the player list
+	players := te.playerList()
+	playerIdx := findPlayerIdx(players, playerID)
 	if playerIdx == UnsetValue {
-		return ErrTablePlayerNotFound
-	}
-
-	// this call takes no engine lock: the player list may have changed since the index was looked up
-	players := te.table.State.PlayerStates
-	if playerIdx >= len(players) || players[playerIdx].PlayerID != playerID {
 		return ErrTablePlayerNotFound
 	}
 	player := players[playerIdx]
@@ -419,12 +416,13 @@ PlayerSettlementFinish 玩家結算完成
   - 適用時機: 玩家已經看完結算動畫
 */
 func (te *tableEngine) PlayerSettlementFinish(playerID string) error {
-	playerIdx := te.table.FindPlayerIdx(playerID)
+	players := te.playerList()
+	playerIdx := findPlayerIdx(players, playerID)
 	if playerIdx == UnsetValue {
 		return ErrTablePlayerNotFound
 	}
 
-	if !te.table.State.PlayerStates[playerIdx].IsIn {
+	if !players[playerIdx].IsIn {
 		return ErrTablePlayerInvalidAction
 	}
 
@@ -439,12 +437,13 @@ PlayerRedeemChips 增購籌碼
 */
 func (te *tableEngine) PlayerRedeemChips(joinPlayer JoinPlayer) error {
 	// find player index in PlayerStates
-	playerIdx := te.table.FindPlayerIdx(joinPlayer.PlayerID)
+	players := te.playerList()
+	playerIdx := findPlayerIdx(players, joinPlayer.PlayerID)
 	if playerIdx == UnsetValue {
 		return ErrTablePlayerNotFound
 	}
 
-	playerState := te.table.State.PlayerStates[playerIdx]
+	playerState := players[playerIdx]
 	playerState.Bankroll += joinPlayer.RedeemChips
 	if err := te.sm.UpdatePlayerHasChips(playerState.PlayerID, playerState.Bankroll > 0); err != nil {
 		return err
